@@ -35,6 +35,14 @@ Proof.
   destruct (run_changes idxs ncb d' r). destruct (run_changes idxs 0 d' r). exact IH.
 Qed.
 
+Lemma index_after_cons : forall (idxs : list (index V)) d c cs,
+  index_after idxs d (c :: cs) = index_after idxs (index_after idxs d [c]) cs.
+Proof.
+  intros idxs d [[id b] a] cs. rewrite index_after_one. unfold index_after. cbn [run_changes].
+  unfold update_index. destruct (update_idxs idxs id b a d false) as [d1 u1]. cbn [fst].
+  destruct (run_changes idxs 0 d1 cs). reflexivity.
+Qed.
+
 Lemma cb_log_app : forall j (x y : list (effect V)), cb_log j (x ++ y) = cb_log j x ++ cb_log j y.
 Proof. intros. unfold cb_log. apply flat_map_app. Qed.
 
@@ -95,9 +103,7 @@ Proof.
     + rewrite <- callbacks_exact_pf in Hin.
       destruct (IH _ _ j id b a dcall St' C Hin) as [pre [post [E1 [E2 E3]]]].
       exists ((id0, b0, a0) :: pre), post. split; [cbn [app]; f_equal; exact E1|]. split.
-      * rewrite E2. unfold index_after. cbn [app run_changes]. unfold update_index.
-        destruct (update_idxs idxs id0 b0 a0 d false) as [d1 u1].
-        destruct (run_changes idxs 0 d1 (pre ++ [(id, b, a)])). reflexivity.
+      * rewrite E2. cbn [app]. symmetry. apply index_after_cons.
       * exact E3.
 Qed.
 
@@ -141,7 +147,7 @@ Proof.
   intros x. rewrite sort_In. apply H.
 Qed.
 
-Lemma affects_sound_pf : forall (idxs : list (index V)) (q : iquery V) s d id a,
+Lemma affects_unchanged_pf : forall (idxs : list (index V)) (q : iquery V) s d id a,
   names_ok idxs -> In (qidx q) idxs -> index_state idxs s d -> nul_free id = true ->
   let b := st_get id s in
   let s' := st_put id a s in
@@ -150,16 +156,15 @@ Lemma affects_sound_pf : forall (idxs : list (index V)) (q : iquery V) s d id a,
   entries_nul_free (entries_of (qidx q) s') = true ->
   (qrev q = true -> db_bytes_ok d = true /\ db_bytes_ok d' = true) ->
   ((qlimit q < 0)%Z -> (Z.of_nat (length d) < max_int)%Z /\ (Z.of_nat (length d') < max_int)%Z) ->
-  fetch_collection d q <> fetch_collection d' q -> affects_query q b a = true.
+  affects_query q b a = false -> fetch_collection d q = fetch_collection d' q.
 Proof.
-  intros idxs q s d id a [CF NDn] Hin St Nid b s' d' NF NF' Hbytes Hlen Hdiff.
-  destruct (affects_query q b a) eqn:Aff; [reflexivity|]. exfalso. apply Hdiff.
+  intros idxs q s d id a [CF NDn] Hin St Nid b s' d' NF NF' Hbytes Hlen Aff.
   assert (St' : index_state idxs s' d') by (apply state_step_pf; assumption).
   destruct (state_slice_pf idxs CF NDn s d (qidx q) St Hin) as [Sl [NDe _]].
   destruct (state_slice_pf idxs CF NDn s' d' (qidx q) St' Hin) as [Sl' [NDe' _]].
   destruct St as [NDs [_ [Sd _]]]. destruct St' as [NDs' [_ [Sd' _]]].
-  rewrite (query_spec_pf d q _ Sd Sl NDe NF) by (intros H; [apply Hbytes|apply Hlen]; exact H).
-  rewrite (query_spec_pf d' q _ Sd' Sl' NDe' NF') by (intros H; [apply Hbytes|apply Hlen]; exact H).
+  rewrite (query_spec_pf d q _ Sd Sl NDe NF (fun H => proj1 (Hbytes H)) (fun H => proj1 (Hlen H))).
+  rewrite (query_spec_pf d' q _ Sd' Sl' NDe' NF' (fun H => proj2 (Hbytes H)) (fun H => proj2 (Hlen H))).
   f_equal. unfold spec_query, spec_query_on. do 3 f_equal.
   apply sort_ext; [apply NoDup_filter; exact NDe|apply NoDup_filter; exact NDe'|].
   intros [key i]. rewrite !filter_In. cbn [fst].
@@ -171,6 +176,31 @@ Proof.
       * rewrite H1 in M1. cbn in M1. congruence.
       * rewrite H1 in M2. cbn in M2. congruence.
   - tauto.
+Qed.
+
+Lemma affects_sound_pf : forall (idxs : list (index V)) (q : iquery V) s d id a,
+  names_ok idxs -> In (qidx q) idxs -> index_state idxs s d -> nul_free id = true ->
+  let b := st_get id s in
+  let s' := st_put id a s in
+  let d' := fst (update_idxs idxs id b a d false) in
+  entries_nul_free (entries_of (qidx q) s) = true ->
+  entries_nul_free (entries_of (qidx q) s') = true ->
+  (qrev q = true -> db_bytes_ok d = true /\ db_bytes_ok d' = true) ->
+  ((qlimit q < 0)%Z -> (Z.of_nat (length d) < max_int)%Z /\ (Z.of_nat (length d') < max_int)%Z) ->
+  fetch_collection d q <> fetch_collection d' q -> affects_query q b a = true.
+Proof.
+  intros idxs q s d id a Hn Hin St Nid b s' d' NF NF' Hbytes Hlen Hdiff.
+  destruct (affects_query q b a) eqn:Aff; [reflexivity|]. exfalso. apply Hdiff.
+  apply (affects_unchanged_pf idxs q s d id a); assumption.
+Qed.
+
+Lemma unchanged_keys_same_db : forall (r : list (index V)) id b a d u,
+  existsb (fun ix => negb (okey_eq (opt_key ix b) (opt_key ix a))) r = false ->
+  update_idxs r id b a d u = (d, u).
+Proof.
+  induction r as [|ix r IH]; intros id b a d u H; [reflexivity|].
+  cbn [existsb] in H. apply orb_false_iff in H as [H1 H2]. cbn [update_idxs].
+  destruct (okey_eq (opt_key ix b) (opt_key ix a)); [apply IH; exact H2|discriminate].
 Qed.
 
 Lemma affects_precise_pf : forall (q : iquery V) b a,
